@@ -374,6 +374,11 @@ static std::string showAttr(const DataFormat::attribute_t &a) {
 // code on a fresh one-attribute record.
 static int g_toStrSupported[16], g_fromStrSupported[16];
 static void probeSupport() {
+#if defined(__SANITIZE_ADDRESS__)
+  // the probe assigns to a STRING attribute; its buffer is never freed (no std::string destructor is
+  // ever run by DataFormat::release) — keep that out of the --leakcheck report of the case
+  __lsan::ScopedDisabler noLeakReport;
+#endif
   for (int t = 0; t < N_TYPES; ++t) {
     DataFormat f;
     f.addAttribute("x", (dt_t) t);
@@ -417,6 +422,17 @@ static void execOp(const Line &l) {
 #define GET_DATA(id) if ((id) >= datas.size() || !datas[id]) { out("err:nodata"); return; }
 #define GET_FMT(id) if ((id) >= fmts.size()) { out("err:nofmt"); return; }
 
+  if (op == "leakcheck" && n == 1) {
+    NO_PAYLOAD;
+#if defined(__SANITIZE_ADDRESS__)
+    // every live record and format is reachable from the vectors above; what LeakSanitizer still
+    // finds was allocated by the code under test and lost
+    done(std::string("lsan leaks=") + (__lsan_do_recoverable_leak_check() ? "1" : "0"));
+#else
+    done("lsan unavailable");
+#endif
+    return;
+  }
   if (op == "fmt" && n == 1) {
     NO_PAYLOAD;
     fmts.push_back(new DataFormat());
